@@ -46,8 +46,9 @@ func nameConforms(c *Ctx, pa *provAnalysis, format string, v ssa.Value) (bool, s
 }
 
 func checkC04(c *Ctx, r *Report) {
-	r.Rules = []string{"O3 member order and names (deb ar, ipk, apk segments and cut/full kinds, archlinux)", "D4 deb compression name -> constructor -> member suffix", "F10 every tar member name is relative by construction", "O4 nested archives are completed before they are read (shared with C06-E2/E2m)", "uniqueness / parents-before-children inherited from the plan (shared with C05)"}
+	r.Rules = []string{"O3 member order and names (deb ar, ipk, apk segments and cut/full kinds, archlinux)", "D4 deb compression name -> constructor -> member suffix", "F10 every tar member name is relative by construction", "O4 nested archives are completed before they are read (shared with C06-E2/E2m)", "uniqueness / parents-before-children inherited from the plan (shared with C05)", "F10-size header-only members carry size zero", "O3-align apk segments end on a 512-byte boundary without a whole zero block", "mtree-F8 .PKGINFO first in .MTREE (imported from C03)", "apk-F12-apk segment order by buffer identity (imported from C10)", "fresh-G4 archives start in fresh buffers (imported from C11)"}
 	r.Explanation = "Structural necessary conditions of well-formedness decided from source. (O3) deb: the ar global header is written before any member and the members are debian-binary (constant body \"2.0\\n\"), control.tar.gz, the data member, then the optional signature, in that order on every path; ipk: ./debian-binary, ./control.tar.gz, ./data.tar.gz in that order through the './'-prefixing helper; apk: the data segment is written as a complete tar (the kind constant for which the writer flushes after closing the tar), control and signature as cut tars, the buffered writer is large enough to hold back the end-of-archive marker (>= 1024), Flush precedes the tar Close, and .PKGINFO is the first entry of the control segment; archlinux: .INSTALL is written only when at least one script is configured. (D4) the deb compression setting is evaluated for every accepted name and for an unknown one: exactly one compressor constructor is live and the member name carries the matching suffix; an unknown name is an error. (F10) for every tar header created on a packaging path, every definition of Name that can reach the point where the header is written (flow-sensitive reaching stores) is a relative constant, is built from constants, or passes the format's relative-name helper; a header made by tar.FileInfoHeader keeps its source-path name unless overwritten on every path. (O4) every tar/compressor layered over a buffer is closed before the buffer is read. Uniqueness of names and parents-before-children follow from the plan rules of C05, which are re-evaluated here. Acceptance by dpkg/rpm/apk/pacman and rpm's internal layout are not decided."
+	r.Explanation += " (F10-size) per header, over the combinations of Typeflag and Size definitions that can hold together at a use, a header-only class never meets a size other than the constant zero. (O3-align) the hand-written padding of apk segments, evaluated in an affine domain for every residue of the byte counter modulo 512, satisfies 0 <= pad < 512 and (counter+pad) mod 512 = 0. Imported: .PKGINFO first in .MTREE (C03 F8), apk segment order by buffer identity (C10 F12-apk), fresh output buffers (C11 G4), and the planner's path discipline (C05 G-*, O5-parents-clean)."
 	r.Assumptions = []string{
 		"archive/tar, blakesmith/ar, pgzip, zstd, xz and rpmpack produce well-formed containers for well-formed input",
 		"files.AsRelativePath / AsExplicitRelativePath return clean relative paths (their string semantics are not analysed)",
@@ -287,6 +288,8 @@ func checkC04(c *Ctx, r *Report) {
 		}
 	}
 	r.Floor("F10", nh, 10)
+	checkTarFormats(c, r)
+	checkZstdWindow(c, r)
 	r.Floor("F10-size", nsz, 8)
 
 	// ---- O4 (shared with C06) and plan rules (shared with C05) ----
@@ -603,4 +606,122 @@ func valueIsParamCompared(fn *ssa.Function) bool {
 		}
 	}
 	return false
+}
+
+// checkTarFormats (F10-format): dpkg reads only the old GNU / ustar tar
+// dialects; a header written without an explicit format lets archive/tar fall
+// back to PAX records as soon as a field does not fit (a link target longer
+// than 100 bytes), which dpkg rejects. Every tar header of the deb and ipk
+// packagers therefore has Format = FormatGNU at every use - set in the
+// literal, by its factory, or by the helper it is handed to.
+func checkTarFormats(c *Ctx, r *Report) {
+	n := 0
+	for _, format := range []string{"deb", "ipk"} {
+		pk := c.PackagerByFormat(format)
+		if pk == nil {
+			continue
+		}
+		var fns []*ssa.Function
+		for _, fn := range sortedFuncs(c, c.Reach(pk.Package)) {
+			if c.funcPkgPath(fn) == pk.PkgPath {
+				fns = append(fns, fn)
+			}
+		}
+		for _, h := range headerObjects(c, fns) {
+			if h.Kind != "tar" || len(h.Uses) == 0 {
+				continue
+			}
+			n++
+			ok := true
+			why := "Format is FormatGNU at every use"
+			for _, u := range h.Uses {
+				if _, isRet := u.(*ssa.Return); isRet {
+					continue
+				}
+				defs, init := h.reaching("Format", u)
+				if init && !calleeSetsFormat(c, u, h.Root) {
+					ok = false
+					why = fmt.Sprintf("at %s the header's Format can be unset: archive/tar then chooses the dialect itself and switches to PAX extended headers for long names or link targets, which dpkg does not read", c.instrPos(u))
+				}
+				for _, st := range defs {
+					if k, isK := h.valueOf(st).(*ssa.Const); !isK || k.Value == nil || k.Int64() != 8 { // tar.FormatGNU
+						ok = false
+						why = fmt.Sprintf("the Format stored at %s is not tar.FormatGNU", c.instrPos(st))
+					}
+				}
+			}
+			r.Check(ok, "F10-format", format+": tar dialect of "+h.key(c), c.instrPos(h.Create), why)
+		}
+	}
+	r.Floor("F10-format", n, 6)
+}
+
+// calleeSetsFormat: the use hands the header to a module function that stores
+// FormatGNU into its parameter's Format before anything else uses it.
+func calleeSetsFormat(c *Ctx, use ssa.Instruction, root ssa.Value) bool {
+	call, ok := use.(*ssa.Call)
+	if !ok {
+		return false
+	}
+	sc := call.Call.StaticCallee()
+	if sc == nil || sc.Blocks == nil || !c.isModuleFunc(sc) {
+		return false
+	}
+	for i, a := range call.Call.Args {
+		if a != root || i >= len(sc.Params) {
+			continue
+		}
+		prm := sc.Params[i]
+		found := false
+		for _, ref := range *prm.Referrers() {
+			fa, ok := ref.(*ssa.FieldAddr)
+			if !ok || fieldName(fa.X.Type(), fa.Field) != "Format" {
+				continue
+			}
+			for _, r2 := range *fa.Referrers() {
+				if st, ok := r2.(*ssa.Store); ok && st.Addr == ssa.Value(fa) && st.Block() == sc.Blocks[0] {
+					if k, isK := st.Val.(*ssa.Const); isK && k.Value != nil && k.Int64() == 8 { // tar.FormatGNU
+						found = true
+					}
+				}
+			}
+		}
+		return found
+	}
+	return false
+}
+
+// checkZstdWindow (O3-zstd-window): a zstd frame announces its window size;
+// decoders (zstd -d, libarchive) refuse frames whose window exceeds 128 MiB
+// unless told otherwise. An encoder option that sets the window must be a
+// constant within that bound - not derived from the payload.
+func checkZstdWindow(c *Ctx, r *Report) {
+	const zstdPath = "github.com/klauspost/compress/zstd"
+	n := 0
+	ctors := 0
+	for _, fn := range c.ModFuncs {
+		forEachInstr(fn, func(in ssa.Instruction) {
+			call, ok := in.(*ssa.Call)
+			if !ok {
+				return
+			}
+			if calleeIs(call, zstdPath, "", "NewWriter") {
+				ctors++
+			}
+			if !calleeIs(call, zstdPath, "", "WithWindowSize") {
+				return
+			}
+			n++
+			k, isK := call.Call.Args[0].(*ssa.Const)
+			okW := isK && k.Value != nil && k.Int64() <= 1<<27
+			r.Check(okW, "O3-zstd-window", fmt.Sprintf("zstd window option#%d in %s", n, c.funcKey(fn)), c.instrPos(call),
+				"the window size is not a constant of at most 128 MiB: a frame announcing a larger window is refused by zstd -d and libarchive with their default limits")
+		})
+	}
+	if n == 0 {
+		r.Pass("O3-zstd-window", fmt.Sprintf("%d zstd encoder(s), none with a window option", ctors), "-", "the encoder default (8 MiB) is accepted by every decoder")
+	}
+	if ctors < 1 {
+		r.Fail("instance-floor", "O3-zstd-window", "-", "no zstd encoder found")
+	}
 }
